@@ -30,6 +30,7 @@ from .matcher import IgnoreSuppressionMatcher
 from .python_analyzer import PythonIgnoreDetector
 from .skip_detector import TestSkipDetector
 from .types import IgnoreDirective
+from .typescript_analyzer import TypeScriptIgnoreDetector
 from .violation_builder import build_orphaned_violation, build_unjustified_violation
 
 
@@ -43,6 +44,7 @@ class LazyIgnoresRule(BaseLintRule):
             check_test_skips: Whether to check for unjustified test skips.
         """
         self._python_detector = PythonIgnoreDetector()
+        self._typescript_detector = TypeScriptIgnoreDetector()
         self._test_skip_detector = TestSkipDetector()
         self._suppression_parser = SuppressionsParser()
         self._matcher = IgnoreSuppressionMatcher(self._suppression_parser)
@@ -76,35 +78,43 @@ class LazyIgnoresRule(BaseLintRule):
         Returns:
             List of violations for unjustified and orphaned suppressions.
         """
-        if context.language != Language.PYTHON:
+        if context.language not in (Language.PYTHON, Language.TYPESCRIPT, Language.JAVASCRIPT):
             return []
 
         if not context.file_content:
             return []
 
         file_path = str(context.file_path) if context.file_path else "unknown"
-        return self.check_content(context.file_content, file_path)
+        return self.check_content(context.file_content, file_path, context.language)
 
-    def check_content(self, code: str, file_path: str) -> list[Violation]:
+    def check_content(
+        self, code: str, file_path: str, language: str | Language = Language.PYTHON
+    ) -> list[Violation]:
         """Check code for unjustified ignores and orphaned suppressions.
 
         Args:
             code: Source code content to analyze.
             file_path: Path to the file being analyzed.
+            language: Language of the source (Python, TypeScript or JavaScript).
 
         Returns:
             List of violations for unjustified and orphaned suppressions.
         """
+        lang = Language(language) if isinstance(language, str) else language
+
         # Extract and parse header suppressions
-        header = self._suppression_parser.extract_header(code, "python")
+        header = self._suppression_parser.extract_header(code, lang)
         suppressions = self._suppression_parser.parse(header)
 
         # Find all ignore directives in code
-        ignores = self._python_detector.find_ignores(code, Path(file_path))
+        if lang == Language.PYTHON:
+            ignores = self._python_detector.find_ignores(code, Path(file_path))
+        else:
+            ignores = self._typescript_detector.find_ignores(code, Path(file_path))
 
         # Find test skip directives if enabled
         if self._check_test_skips:
-            test_skips = self._test_skip_detector.find_skips(code, Path(file_path), "python")
+            test_skips = self._test_skip_detector.find_skips(code, Path(file_path), lang)
             ignores = list(ignores) + list(test_skips)
 
         # Build set of normalized rule IDs used in code
